@@ -88,4 +88,45 @@ def applyMem {σ : Type} (K : Core σ) (w : Nat) (s : Wr σ) (io : IOBuf) : Outc
 def applyB2b {σ : Type} (K : Core σ) (w : Nat) (s : Wr σ) (inp out : Bytes) : Outcome σ :=
   if inp.length ≠ out.length then .err out s else applyMem K w s (IOBuf.b2b inp out)
 
+/-! ### `StreamCipherCore::try_apply_keystream_partial` at memory level -/
+
+/-- the body after the check, statement by statement:
+    `if buf.len() > BS { let (blocks, tail) = buf.into_chunks(); self.apply_keystream_blocks_inout(blocks); buf = tail; }`
+    `let n = buf.len(); if n == 0 { return Ok(()) }`
+    `let mut block = Block::default(); block[..n].copy_from_slice(buf.get_in());`
+    `self.apply_keystream_blocks_inout(InOutBuf::from_mut(&mut block)); buf.get_out().copy_from_slice(&block[..n]);` -/
+def partialUncheckedMem {σ : Type} (K : Core σ) (w : Nat) (s : σ) (io : IOBuf) : Option IOBuf :=
+  let bs := K.bs
+  let nb := if io.len > bs then io.len / bs else 0
+  let n := io.len - nb * bs
+  let r := genBlocks K w nb s
+  match applyBlocksMem r.1 bs nb 0 io with
+  | none => none
+  | some io1 =>
+    if n = 0 then some io1
+    else
+      match getIn? io1 (nb * bs) n with                        -- `buf.get_in()`
+      | none => none
+      | some t =>
+        match blockSet? (zeros bs) 0 n t with                  -- `block[..n].copy_from_slice(..)`
+        | none => none
+        | some block =>
+          let g := genBlocks K w 1 r.2                         -- one more keystream block for the local block
+          match slice? (xorB block (g.1.headD [])) 0 n with    -- `&block[..n]`
+          | none => none
+          | some v => setOut? io1 (nb * bs) n v                -- `buf.get_out().copy_from_slice(..)`
+
+/-- `try_apply_keystream_partial` on an in/out buffer: `err` = rejected by the (dependency's) check, nothing written. -/
+inductive POutcome
+  | ok (out : Bytes)
+  | err (out : Bytes)
+  | panic
+
+def partialMem {σ : Type} (K : Core σ) (w : Nat) (s : σ) (io : IOBuf) : POutcome :=
+  if partialCheck K s io.len then
+    match partialUncheckedMem K w s io with
+    | some io' => .ok io'.out
+    | none => .panic
+  else .err io.out
+
 end Impl.MemWr
